@@ -15,6 +15,7 @@ import (
 	sentinel "github.com/alibaba/sentinel-golang/api"
 	"github.com/alibaba/sentinel-golang/core/base"
 	cb "github.com/alibaba/sentinel-golang/core/circuitbreaker"
+	"github.com/alibaba/sentinel-golang/core/flow"
 	"github.com/alibaba/sentinel-golang/core/outlier"
 	"pgregory.net/rapid"
 
@@ -107,7 +108,17 @@ func TestEjectionCap(t *testing.T) {
 		for i := range addrs {
 			addrs[i] = fmt.Sprintf("10.0.%d.%d:80", i/250, i%250)
 		}
-		capped, reloads := false, 0
+		capped, reloads, queued := false, 0, false
+		if rapid.IntRange(0, 3).Draw(t, "pacingFlowRule") == 0 {
+			// another module on the same service: a pacing rule that queues requests (never rejects: the limit is an hour)
+			if _, err := flow.LoadRules([]*flow.Rule{{Resource: res, ControlBehavior: flow.Throttling, Threshold: float64(rapid.SampledFrom([]int{1, 2, 10, 100}).Draw(t, "paceT")), MaxQueueingTimeMs: 3600000}}); err != nil {
+				t.Fatalf("flow rule: %v", err)
+			}
+			hx.C.Advance = true
+			defer func() { hx.C.Advance = false }()
+			c.Class("pacing-flow-rule-on-the-service")
+		}
+		defer func() { c.ClassIf(queued, "request-queued-before-the-node-breakers-were-consulted") }()
 		n := rapid.IntRange(1, 40).Draw(t, "n")
 		for i := 0; i < n; i++ {
 			hx.C.AddMs(uint64(rapid.SampledFrom([]int{0, 1, 5, 10, 100, 500, 1000}).Draw(t, "dt")))
@@ -138,11 +149,15 @@ func TestEjectionCap(t *testing.T) {
 				rule = &r2
 				c.Op("reload #%d: retry=%d threshold=%v (changed=%v)", reloads, mr.RetryTimeoutMs, mr.Threshold, changed)
 			}
-			now := hx.C.Ms()
+			called := hx.C.Ms()
 			e, blk := sentinel.Entry(res, sentinel.WithSlotChain(chain))
 			if blk != nil {
 				t.Fatalf("outlier slot blocked the request: %v", blk)
 			}
+			// (a pacing flow rule on the service may have made the single caller sleep inside Entry before the node breakers
+			// were consulted: they see the instant the wait is over; the response time runs from the Entry call)
+			now := hx.C.Ms()
+			queued = queued || now != called
 			filter := append([]string(nil), e.Context().FilterNodes()...)
 			halfs := append([]string(nil), e.Context().HalfOpenNodes()...)
 			// reference: every Entry consults every known node's breaker
@@ -197,7 +212,7 @@ func TestEjectionCap(t *testing.T) {
 				m = model.NewBreaker(mr, nil)
 				nodes[callee] = m
 			}
-			m.Complete(now2, now2-now, fail)
+			m.Complete(now2, now2-called, fail)
 			if rapid.IntRange(0, 3).Draw(t, "idleService") == 0 {
 				e2, blk2 := sentinel.Entry(res2, sentinel.WithSlotChain(chain))
 				if blk2 != nil {
